@@ -1,16 +1,18 @@
 /-
-C01 — chunk codec round-trip.   STATUS: the clauses about acceptance, non-empty packets and
-independence of the partition are proved here for all inputs; the round-trip equation itself
-(`C01_roundtrip`, full statement below) is NOT yet a theorem — it is Thm B ∘ Thm A of DESIGN.md §4 —
-and is at present covered by the correspondence run plus the direct round-trip oracle (!chunk.rt).
+C01 — chunk codec round-trip.   STATUS: proved.
 
-Full statement still to be proved:
-  ∀ ops : List C19.SerOp (raw type-1 payloads announcing only the size in force, reading 11), ∀ cuts,
-    the deserializer model fed the concatenated packets of `ops`, split at `cuts`, with the honouring
-    consumer, returns exactly the payloads of the accepted ops, in order, and no error.
+`C01_roundtrip` (Thm B ∘ Thm A): for EVERY history of messages and outbound chunk-size changes the
+serializer model accepts — any type ids, message stream ids, timestamps (rising, falling, wrapping),
+sizes 0..16,777,215, any force/droppable flags — and EVERY partition of the produced bytes into input
+calls, a deserializer that honours each decoded chunk-size change returns exactly the accepted
+messages, in order, and no error.  Also: acceptance ⇔ size ≤ 16,777,215 (`C01_accepts`), every
+accepted message yields a non-empty packet (`C01_nonempty`).  Hypothesis: reading 11 of DESIGN.md §9a
+(hand-made type-1 payloads; see C07).
 -/
-import Rml.Lemmas.Ser
-import Rml.Props.C15
+import Rml.Lemmas.SerHist
+import Rml.Props.C06
+import Rml.Props.C07
+
 namespace Rml.C01
 open Rml Rml.Chunk
 
@@ -50,6 +52,25 @@ theorem C01_any_partition (c1 : Bytes) (r1 : List Bytes) (c2 : Bytes) (r2 : List
     (C15.feedAll {} (c1 :: r1)).msgs = (C15.feedAll {} (c2 :: r2)).msgs ∧
     (C15.feedAll {} (c1 :: r1)).err = (C15.feedAll {} (c2 :: r2)).err :=
   C15.C15_des {} c1 r1 c2 r2 h
+
+open Rml.SerHist in
+/-- **C01.**  Serializer, then deserializer, under every partition of the bytes: the accepted messages,
+    in order, nothing else, no error. -/
+theorem C01_roundtrip (ops : List C19.SerOp) (hwf : HistWF {} ops) (c1 : Bytes) (r1 : List Bytes)
+    (hcut : (c1 :: r1).flatten = wire (trace {} ops)) :
+    (C15.feedAll {} (c1 :: r1)).msgs = msgs (trace {} ops) ∧ (C15.feedAll {} (c1 :: r1)).err = none := by
+  have h := C07.C07_legal ops hwf
+  rw [← hcut] at h
+  exact C06.C06_decodes_legal_any_fragmentation c1 r1 _ h
+
+open Rml.SerHist in
+/-- `msgs (trace …)` is exactly the sequence of messages of the accepted operations -/
+theorem C01_trace_msgs (s : Ser.State) (op : C19.SerOp) (rest : List C19.SerOp) :
+    msgs (trace s (op :: rest)) =
+      (match C19.applyOp s op with
+       | .ok _ => [msgOf op]
+       | _ => []) ++ msgs (trace (after s op) rest) := by
+  cases h : C19.applyOp s op <;> simp [trace, msgs, h]
 
 -- a concrete history checked end to end in the kernel (a test, not the theorem): audio 300 bytes at
 -- ts 16777300 (extended timestamp, three chunks), the same again (format 3 with repeated extended
